@@ -37,7 +37,7 @@ type raceRes struct {
 	Dump1, Dump2 string
 }
 
-var c29Cap = 40 * time.Second
+var c29Cap = 25 * time.Second
 
 // runRace runs the race build; on a timeout it takes two goroutine dumps (SIGQUIT makes a Go program print all stacks and
 // exit; so the "second dump" is taken from a fresh identical run) — simpler and still sound: a timeout is only called a
@@ -214,7 +214,7 @@ func TestC29(t *testing.T) {
 			"run with the race-detector build of the real binary under GOMAXPROCS in {1,2,4,16} and with seeded pseudo-random delays in the JSON workers (hook VERIF_JSON_DELAY_SEED) so parse batches complete out of order; oracle: no 'WARNING: DATA RACE' report and the process ends within the cap; on a timeout a SIGQUIT dump decides: every goroutine parked = deadlock violation, otherwise inconclusive. "+
 			"non-trivial: more than one goroutine worked (more than one JSON batch, or a join) and the query ended early or in error. distinct = case",
 		"schedule sampling only: absence of races is not shown; the in-process join schedule enumeration of C19 runs without the race detector")
-	ev.Check(t, r, "race_build_cli", ev.N(420, 12000), func(t *rapid.T) c29Case {
+	ev.Check(t, r, "race_build_cli", ev.N(300, 10000), func(t *rapid.T) c29Case {
 		c := c29Case{Shape: rapid.SampledFrom([]string{"scan", "bad_row", "failing_expr", "like_regex", "join", "join_error_side", "join_like_both", "outer_join", "group_join", "lookup_join", "subquery_expr"}).Draw(t, "shape")}
 		c.Rows = rapid.SampledFrom([]int{10, 65, 200, 1000, 9000}).Draw(t, "rows")
 		c.Rows2 = rapid.SampledFrom([]int{5, 70, 300}).Draw(t, "rows2")
